@@ -357,12 +357,54 @@ class CloneForCallee(Contract):
                "InputGatherer", "SizeParamGatherer"]
 
     def instances(self, tier):
-        return [dict(label=m, M=m) for m in self.MAPPERS]
+        out = [dict(label=m, M=m) for m in self.MAPPERS]
+        # the two reporting switches of the caches ("reports rather than
+        # hides a cache-key collision"), in every combination: the clone that
+        # traverses a function body must report exactly what its parent does
+        for m in self.MAPPERS:
+            for a in (False, True):
+                for b in (False, True):
+                    out.append(dict(
+                        label=f"{m};err_on_collision={a};"
+                              f"err_on_created_duplicate={b}", M=m,
+                        flags=[a, b]))
+        return out
 
     def run(self, h, inst):
         from pyvc import mapperlib as ml
         M = ml.mapper_by_name(inst["M"])
-        m = ml.instantiate(M)
+        flags = inst.get("flags")
+        if flags is None:
+            m = ml.instantiate(M)
+        else:
+            # through the constructor only: a class that fixes the switches
+            # itself (Deduplicator, Inliner: collisions are their business)
+            # has nothing to propagate
+            import functools
+            import inspect
+            params = set()
+            for klass in M.__mro__:
+                init = vars(klass).get("__init__")
+                if init is not None:
+                    params |= set(inspect.signature(init).parameters)
+                    if "kwargs" not in inspect.signature(init).parameters:
+                        break
+            kw = {nm: v for nm, v in zip(
+                ("err_on_collision", "err_on_created_duplicate"), flags,
+                strict=True) if nm in params}
+            if not kw:
+                h.oblige(f"clone.no-reporting-switches[{inst['M']}]",
+                         z3.BoolVal(True))
+                return
+            fac = ml._factories().get(inst["M"], lambda C: C())
+            try:
+                m = fac(functools.partial(M, **kw))
+            except TypeError as e:
+                h.fail(f"clone.constructible-with-switches[{inst['M']}]",
+                       str(e))
+                return
+            flags = [kw.get("err_on_collision"),
+                     kw.get("err_on_created_duplicate")]
         f = gm.mk_opaque_function("f", "concrete")
         try:
             c = h.call(m.clone_for_callee, f)
@@ -374,6 +416,25 @@ class CloneForCallee(Contract):
             return
         Mn = inst["M"]
         h.oblige(f"clone.same-class[{Mn}]", z3.BoolVal(type(c) is type(m)))
+        if flags is not None:
+            for nm, v in zip(("err_on_collision", "err_on_created_duplicate"),
+                             flags, strict=True):
+                if v is None:
+                    continue
+                for cn in ("_cache", "_function_cache"):
+                    cache = getattr(c, cn, None)
+                    parent = getattr(getattr(m, cn, None), nm, None)
+                    if cache is not None and hasattr(cache, nm) \
+                            and parent is not None:
+                        # "reports rather than hides": what the parent
+                        # reports, the clone reports (it may report more)
+                        h.oblige(f"clone.reports-at-least-what-the-parent-"
+                                 f"reports[{Mn},{cn}.{nm}]",
+                                 z3.BoolVal((not parent)
+                                            or getattr(cache, nm) is True),
+                                 info=f"parent {parent}, clone "
+                                      f"{getattr(cache, nm)}")
+            return
         if hasattr(m, "_cache"):
             # separate name space: the array cache must be a fresh one
             h.oblige(f"clone.fresh-array-cache[{Mn}]",
@@ -393,6 +454,44 @@ class CloneForCallee(Contract):
             # result the caller reads
             h.oblige(f"clone.shares-the-collected-result[{Mn}]",
                      z3.BoolVal(c.materialized_nodes is m.materialized_nodes))
+
+
+    def replay(self, inst, clause, model, info):
+        if inst.get("flags") is None or "no-reporting-switches" in clause:
+            return None
+        return CLONE_REPLAY.format(M=inst["M"], flags=inst["flags"])
+
+
+CLONE_REPLAY = '''
+import sys, functools
+sys.path.insert(0, "/verif")
+sys.path.append("/verif/.deps")
+import numpy as np
+import pytato as pt
+from pyvc import mapperlib as ml
+from pyvc.replaylib import reproduced, not_reproduced
+Mn, (a, b) = {M!r}, {flags!r}
+M = ml.mapper_by_name(Mn)
+fac = ml._factories().get(Mn, lambda C: C())
+try:
+    m = fac(functools.partial(M, err_on_collision=a, err_on_created_duplicate=b))
+except TypeError:
+    m = fac(functools.partial(M, err_on_collision=a))
+x = pt.make_placeholder("x", (3,), np.float64)
+call = pt.trace_call(lambda t: (t + 1) * (t + 1), x).call   # body holds x+1 twice
+c = m.clone_for_callee(call.function)
+for cn in ("_cache", "_function_cache"):
+    for nm in ("err_on_collision", "err_on_created_duplicate"):
+        p = getattr(getattr(m, cn, None), nm, None)
+        q = getattr(getattr(c, cn, None), nm, None)
+        if p is True and q is False:
+            reproduced(f"{{Mn}}(err_on_collision={{a}}, err_on_created_duplicate={{b}})"
+                       f".clone_for_callee(f): the mapper that traverses the "
+                       f"function body has {{cn}}.{{nm}} = False although its "
+                       f"parent has True: a collision inside a called function "
+                       f"is hidden")
+not_reproduced("the clone reports at least what its parent reports")
+'''
 
 
 @contract
